@@ -136,11 +136,16 @@ pub struct UvCall {
 pub struct ScriptedUv {
     pub script: Arc<Mutex<UvScript>>,
     pub log: Arc<Mutex<Vec<UvCall>>>,
+    /// run once, by the next check_user call (something that happens while the user is being asked)
+    pub hook: Arc<Mutex<Option<Box<dyn FnOnce() + Send>>>>,
 }
 
 impl ScriptedUv {
     pub fn new(script: UvScript) -> Self {
-        ScriptedUv { script: Arc::new(Mutex::new(script)), log: Arc::new(Mutex::new(vec![])) }
+        ScriptedUv { script: Arc::new(Mutex::new(script)), log: Arc::new(Mutex::new(vec![])), hook: Arc::new(Mutex::new(None)) }
+    }
+    pub fn on_next_check(&self, f: impl FnOnce() + Send + 'static) {
+        *self.hook.lock().unwrap() = Some(Box::new(f));
     }
     pub fn calls(&self) -> Vec<UvCall> {
         self.log.lock().unwrap().clone()
@@ -157,6 +162,10 @@ impl UserValidationMethod for ScriptedUv {
     async fn check_user<'a>(&self, credential: Option<&'a Passkey>, presence: bool, verification: bool) -> Result<UserCheck, Ctap2Error> {
         let script = self.script.lock().unwrap().clone();
         self.log.lock().unwrap().push(UvCall { credential_id: credential.map(|c| c.credential_id.to_vec()), up: presence, uv: verification });
+        let hook = self.hook.lock().unwrap().take();
+        if let Some(h) = hook {
+            h();
+        }
         YieldN(script.yields).await;
         match script.outcome {
             Ok((p, v)) => Ok(UserCheck { presence: p, verification: v }),
@@ -260,6 +269,9 @@ impl RefStore {
         let mut g = self.0.lock().unwrap();
         g.faults = f;
         g.fallible_calls = 0;
+    }
+    pub fn set_disc(&self, d: Disc) {
+        self.0.lock().unwrap().disc = d;
     }
     pub fn set_yields(&self, n: usize) {
         self.0.lock().unwrap().yields = n;
